@@ -14,7 +14,29 @@ import (
 // arguments only when through(key) is true (nil: never); a call itself is
 // always offered to pred.
 func BackSlice(v ssa.Value, pred func(x ssa.Value) bool, through func(key string) bool) bool {
+	return backSlice(v, pred, through, false)
+}
+
+// MustSlice is BackSlice with 'on every path' semantics at joins: a phi
+// satisfies it only if every incoming value does (a value that depends on pred
+// on one branch only — e.g. a slice that was appended to conditionally — does
+// not). Loop-carried phis are judged by their other edges.
+func MustSlice(v ssa.Value, pred func(x ssa.Value) bool, through func(key string) bool) bool {
+	return backSlice(v, pred, through, true)
+}
+
+// MustDependOnCall: on every path v carries the result of a call matching match.
+func MustDependOnCall(v ssa.Value, match func(key string) bool, through func(key string) bool) bool {
+	return MustSlice(v, func(x ssa.Value) bool {
+		c, ok := x.(*ssa.Call)
+		return ok && match(CallKey(c.Common()))
+	}, through)
+}
+
+func backSlice(v ssa.Value, pred func(x ssa.Value) bool, through func(key string) bool, must bool) bool {
 	seen := map[ssa.Value]bool{}
+	memo := map[ssa.Value]bool{}
+	busy := map[ssa.Value]bool{}
 	var rec func(x ssa.Value, d int) bool
 	storesInto := func(base ssa.Value, d int) bool {
 		// all stores to base or to addresses derived from it
@@ -60,8 +82,28 @@ func BackSlice(v ssa.Value, pred func(x ssa.Value) bool, through func(key string
 		}
 		return walk(base, 0)
 	}
+	var rec0 func(x ssa.Value, d int) bool
 	rec = func(x ssa.Value, d int) bool {
-		if x == nil || d > 40 || seen[x] {
+		if !must {
+			return rec0(x, d)
+		}
+		if x == nil || d > 40 {
+			return false
+		}
+		if r, ok := memo[x]; ok {
+			return r
+		}
+		if busy[x] {
+			return true // loop-carried: decided by the other edges
+		}
+		busy[x] = true
+		r := rec0(x, d)
+		delete(busy, x)
+		memo[x] = r
+		return r
+	}
+	rec0 = func(x ssa.Value, d int) bool {
+		if x == nil || d > 40 || (!must && seen[x]) {
 			return false
 		}
 		seen[x] = true
@@ -70,6 +112,14 @@ func BackSlice(v ssa.Value, pred func(x ssa.Value) bool, through func(key string
 		}
 		switch y := x.(type) {
 		case *ssa.Phi:
+			if must {
+				for _, e := range y.Edges {
+					if !rec(e, d+1) {
+						return false
+					}
+				}
+				return len(y.Edges) > 0
+			}
 			for _, e := range y.Edges {
 				if rec(e, d+1) {
 					return true
